@@ -17,3 +17,15 @@ package emulate
 //@   ensures[error-iff-rejected] (result1 != nil) == !typed_wellformed(w)
 //@   ensures[width] result1 == nil ==> width(result0) == w
 //@   ensures[value] result1 == nil ==> val(result0) == typed_value(w)
+
+// Property C24: the register view over a state with k registers (and the
+// instruction pointer, which every emulator state has, when ip is 1) declares
+// a fixed height and writes exactly that many lines.
+
+//@ func (*regView).Print
+//@   enum k in REGCOUNTS, ip in BOOLS
+//@   input:v reg_view(k, ip)
+//@   input:n declared_min()
+//@   ensures[fixed-height] declared_min() == declared_max() && declared_min() >= 0
+//@   ensures[exactly-declared] result == nil && out_lines() == declared_min()
+//@   ensures[whole-lines] out_whole_lines()
